@@ -377,21 +377,32 @@ fn validate_nameserver_response(
         // get RRs matching the query name or the names it `CNAME`s to
 
         let mut rrs_for_query = Vec::<ResourceRecord>::with_capacity(response.answers.len());
+        let all_unknown = response.answers.iter().all(ResourceRecord::is_unknown);
+
+        // the `CNAME` RRs on the path from the query name to the final name, in
+        // chain order: `follow_cnames` has checked that this path has no loop
+        let mut name = &question.name;
+        while let Some(target) = cname_map.get(name) {
+            if let Some(an) = response.answers.iter().find(|an| {
+                !an.is_unknown()
+                    && an.name == *name
+                    && an.rtype_with_data == RecordTypeWithData::CNAME { cname: target.clone() }
+            }) {
+                rrs_for_query.push(an.clone());
+            }
+            name = target;
+        }
+
+        // followed by the RRs of the right type at the final name
         let mut seen_final_record = false;
-        let mut all_unknown = true;
         for an in &response.answers {
             if an.is_unknown() {
                 continue;
             }
 
-            let rtype = an.rtype_with_data.rtype();
-            all_unknown = false;
-
-            if rtype.matches(question.qtype) && an.name == final_name {
+            if an.rtype_with_data.rtype().matches(question.qtype) && an.name == final_name {
                 rrs_for_query.push(an.clone());
                 seen_final_record = true;
-            } else if rtype == RecordType::CNAME && cname_map.contains_key(&an.name) {
-                rrs_for_query.push(an.clone());
             }
         }
 
@@ -509,6 +520,9 @@ fn follow_cnames(
     let mut got_match = false;
     let mut cname_map = HashMap::<DomainName, DomainName>::new();
     for rr in rrs {
+        if rr.is_unknown() {
+            continue;
+        }
         if &rr.name == target && rr.rtype_with_data.matches(qtype) {
             got_match = true;
         }
